@@ -685,6 +685,8 @@ func foreignLabel(name, id string) bool {
 		for len(part) >= 4 && part[0] == 'C' && part[1] >= '0' && part[1] <= '9' && part[2] >= '0' && part[2] <= '9' && part[3] == '_' {
 			owners = append(owners, part[:3])
 			part = part[4:]
+			// "C03_principal_C17_x": the C03 tag word does not end the list of owners
+			part = strings.TrimPrefix(part, "principal_")
 		}
 		if len(owners) > 0 {
 			for _, o := range owners {
